@@ -22,7 +22,7 @@ import (
 func payload(rnd *rand.Rand, nonce string) string {
 	sizes := []int{0, 10, 500, 4090, 4096, 4100, 65530, 65536, 70000, 200000}
 	n := sizes[rnd.Intn(len(sizes))]
-	alphabet := []string{"a", "b", "\n", "\r", " ", " ", "\"", "\\", "é", "😀", " "}
+	alphabet := []string{"a", "b", "\n", "\r", " ", " ", "\"", "\\", "é", "😀", " ", "%", "%d", "100% d", "%s"}
 	var sb strings.Builder
 	sb.WriteString(nonce)
 	sb.WriteString("|")
